@@ -781,7 +781,7 @@ func propC17(c *Ctx) {
 						}
 					}
 				}
-				if cur == nil || cur.val == nil {
+				if cur == nil || (cur.val == nil && cur.lenVal == nil) {
 					ok = false
 					detail = "a path returns without having stored a resized destination at " + w.Pos(instrPos(r))
 					continue
@@ -789,7 +789,7 @@ func propC17(c *Ctx) {
 				ls := p.lenOf(payload, b)
 				h := "half(" + ls.String() + ")"
 				p.halfOf[h] = ls
-				d := p.lenOf(cur.val, b).sub(atomLin(h))
+				d := p.lenOfMem(cur, b).sub(atomLin(h))
 				if !(p.prove(d, p.factsAt(b), 0) && p.prove(d.scale(-1), p.factsAt(b), 0)) {
 					ok = false
 					detail = "cannot prove len(*hb) == len(payload)/2 at " + w.Pos(instrPos(r)) + " (" + d.String() + ")"
@@ -934,6 +934,9 @@ func storesResultThroughRecv(h *ssa.Function) bool {
 	recv := h.Params[0]
 	rets := returnsOf(h)
 	for _, r := range rets {
+		if len(returnValues(r)) == 0 {
+			return false
+		}
 		u, isU := stripConv(returnValues(r)[0]).(*ssa.UnOp)
 		if !isU || u.Op != token.MUL || u.X != ssa.Value(recv) || u.Block() != r.Block() {
 			return false
@@ -955,4 +958,56 @@ func storesResultThroughRecv(h *ssa.Function) bool {
 		}
 	}
 	return len(rets) > 0
+}
+
+// setsLenOfRecvTo: h leaves *param0 (a slice) with length param_k on every
+// path: its last write through param0 is `*p = (…)[:param_k]`, it precedes every
+// return and nothing writes through param0 afterwards.  Returns k (0 = no).
+func setsLenOfRecvTo(h *ssa.Function) int {
+	if h == nil || h.Blocks == nil || len(h.Params) < 2 {
+		return 0
+	}
+	recv := h.Params[0]
+	if _, isPtr := recv.Type().Underlying().(*types.Pointer); !isPtr {
+		return 0
+	}
+	var final *ssa.Store
+	k := 0
+	allInstrs(h, func(in ssa.Instruction) {
+		st, ok := in.(*ssa.Store)
+		if !ok || st.Addr != ssa.Value(recv) {
+			return
+		}
+		sl, isSl := stripConv(st.Val).(*ssa.Slice)
+		if !isSl || sl.Low != nil || sl.High == nil {
+			return
+		}
+		if p, isP := stripNum(sl.High).(*ssa.Parameter); isP && p.Parent() == h && passesBeforeReturn(st) {
+			final, k = st, paramIndexOf(p)
+		}
+	})
+	if final == nil || k <= 0 {
+		return 0
+	}
+	// nothing touches *recv after it
+	later, _ := reach(siteOf(final), func(in ssa.Instruction) bool {
+		if in == ssa.Instruction(final) {
+			return false
+		}
+		switch x := in.(type) {
+		case *ssa.Store:
+			return x.Addr == ssa.Value(recv)
+		case ssa.CallInstruction:
+			for _, a := range x.Common().Args {
+				if a == ssa.Value(recv) {
+					return true
+				}
+			}
+		}
+		return false
+	}, nil)
+	if later {
+		return 0
+	}
+	return k
 }
